@@ -65,6 +65,31 @@ ALL_KINDS = VALID + GEN_ONLY + QUIRK + MISSING + UNKNOWN
 # flattened request fields named like the api_core modules the emitted client imports
 FLAT = {"operation": ["operation"], "operation_async": ["operation_async"], "both": ["operation", "operation_async"]}
 
+# base names for the API's own proto file that holds the operation_info types ("Other*" messages): the names of the modules the
+# emitted client imports on the LRO path (google.api_core.operation / operation_async / operations_v1 / gapic_v1,
+# google.longrunning.operations_pb2, google.protobuf.empty_pb2): the two modules of one name must be told apart by aliases
+CLASH_NAMES = ["operation", "operation_async", "operations", "operations_pb2", "operations_v1", "empty", "gapic_v1"]
+# the API's own <x>_pb2.proto beside the dependency <x>.proto it really uses: finding lro.own_file_named_like_used_pb2_module
+PB2_CLASH_SIG = "lro.own_file_named_like_used_pb2_module"
+
+
+def registered(signature):
+    """the finding is listed in findings/known_findings.json (known or fixed): its inputs join the run; until then they are only
+    in scratch/findings and the unchanged tree stays quiet"""
+    try:
+        listed = json.load(open(os.path.join(env.VERIF, "findings", "known_findings.json")))
+    except FileNotFoundError:
+        return False
+    return any(f.get("property") == "C08" and f.get("signature") == signature for f in listed)
+
+
+def pb2_clash(cell):
+    """the cell is in the class of finding PB2_CLASH_SIG: the API's own file is named empty_pb2.proto, holds an operation_info
+    type and the other operation_info type is google.protobuf.Empty"""
+    return bool(cell.get("annotated") and cell.get("types_name") == "empty_pb2"
+                and {cell["resp"], cell["meta"]} & {"empty", "empty_elsewhere"}
+                and {cell["resp"], cell["meta"]} & {"rel_notimported", "fq_notimported", "rel_nested_notimported"})
+
 
 def annotation(kind, pkg, S):
     return {
@@ -172,6 +197,8 @@ def build_api(cell):
     done = set()
     for k in sorted(kinds & set(sub_kinds)):
         fname, prefix, imported = sub_kinds[k]
+        # the file of the sub-package may be named like a module the emitted client imports on the LRO path
+        fname = cell.get("sub_imp_name" if imported else "sub_name", fname)
         if fname in done:
             continue
         done.add(fname)
@@ -734,7 +761,7 @@ def grid(ctx, n):
         i += 1
         cells.append({"pkg_index": r.randrange(len(PACKAGES)), "resp": r.choice(ALL_KINDS), "meta": r.choice(ALL_KINDS),
                       "annotated": r.random() < 0.9, "order": r.choice(["types-first", "svc-first", "types-middle"]),
-                      "raw_sibling": r.random() < 0.3, "types_name": r.choice(["types", "types", "operation", "operation_async"])})
+                      "raw_sibling": r.random() < 0.3, "types_name": r.choice(["types", "types"] + CLASH_NAMES), "sub_name": r.choice(["loose_types", "operation", "operation_async"])})
     seen, out = set(), []
     for c in cells:
         h = env.canon_hash(c)
@@ -828,11 +855,13 @@ def e2e_case(args):
     case = {"cell": cell, "request_b64": apigen.req_b64(req), "where": "e2e"}
 
     def bad(what, extra=None, sig=None):
-        res["violations"].append((what, dict(case, **(extra or {})), sig))
+        res["violations"].append((what, dict(case, **(extra or {})), sig or (PB2_CLASH_SIG if pb2_clash(cell) else None)))
 
     sync_cls, async_cls, start_py = client_names(cell)
     exp = expectation(req, pkg, cell)
     quirk_sig = "lro.nested_relative_type" if (cell["annotated"] and (cell["resp"] in QUIRK or cell["meta"] in QUIRK)) else None
+    if pb2_clash(cell):
+        quirk_sig = PB2_CLASH_SIG
     out, err = generate(cell, req, pkg, f"{idx}-{env.canon_hash(cell)}")
     fp, svc = subject(req, pkg)
     start = next(m for m in svc.method if m.name == "Start")
@@ -1166,6 +1195,11 @@ def e2e_cells(ctx, n):
     # the corpus witnesses run first; then one cell per remaining dimension; cells that repeat a corpus witness with other
     # details come last (the quick tier stops before them), random cells only in the thorough tier
     cells = corpus_cells() + [
+        # operation_info types in a file of the API named like a module the client imports on the LRO path (control: corpus cells
+        # with the ordinary names); the corpus holds operation.proto and <pkg>.common/operation_async.proto
+        {"pkg_index": 2, "resp": "empty", "meta": "rel_notimported", "annotated": True, "order": "svc-first", "types_name": "empty"},
+    ] + ([{"pkg_index": 1, "resp": "empty", "meta": "rel_notimported", "annotated": True, "order": "svc-first", "types_name": "empty_pb2"}]
+         if registered(PB2_CLASH_SIG) else []) + [
         {"pkg_index": 2, "resp": "rel_same", "meta": "rel_same", "annotated": False, "order": "types-first"},
         {"pkg_index": 0, "resp": "missing", "meta": "rel_same", "annotated": True, "order": "types-first"},
         {"pkg_index": 2, "resp": "fq_same", "meta": "rel_imported", "annotated": True, "order": "svc-first", "internal": "some", "raw_sibling": True},
@@ -1181,6 +1215,12 @@ def e2e_cells(ctx, n):
         {"pkg_index": 2, "resp": "rel_notimported", "meta": "rel_same", "annotated": True, "order": "svc-first", "flat": "operation"},
         {"pkg_index": 1, "resp": "fq_subpkg_imported", "meta": "rel_subpkg_notimported", "annotated": True, "order": "types-first"},
         {"pkg_index": 0, "resp": "empty", "meta": "rel_nested_imported", "annotated": True, "order": "types-first", "flat": "operation_async"},
+        {"pkg_index": 1, "resp": "fq_notimported", "meta": "rel_same", "annotated": True, "order": "types-first", "types_name": "operation_async", "rest_async": True},
+        {"pkg_index": 0, "resp": "rel_notimported", "meta": "rel_notimported", "annotated": True, "order": "types-middle", "types_name": "operations_pb2"},
+        {"pkg_index": 2, "resp": "rel_same", "meta": "rel_notimported", "annotated": True, "order": "types-middle", "types_name": "operations"},
+        {"pkg_index": 0, "resp": "rel_notimported", "meta": "fq_subpkg_notimported", "annotated": True, "order": "svc-first", "types_name": "operation", "sub_name": "operation"},
+        {"pkg_index": 0, "resp": "fq_same", "meta": "rel_notimported", "annotated": True, "order": "svc-first", "types_name": "operation", "flat": "operation"},
+        {"pkg_index": 1, "resp": "rel_notimported", "meta": "fq_same", "annotated": True, "order": "svc-first", "types_name": "operations_v1", "internal": "some"},
         {"pkg_index": 0, "resp": "rel_notimported", "meta": "fq_same", "annotated": True, "order": "svc-first"},
         {"pkg_index": 0, "resp": "rel_same", "meta": "missing", "annotated": True, "order": "svc-first"},
         {"pkg_index": 0, "resp": "rel_nested", "meta": "rel_same", "annotated": True, "order": "types-first"},
@@ -1196,7 +1236,11 @@ def e2e_cells(ctx, n):
         pool = VALID * 3 + MISSING + UNKNOWN
         c = {"pkg_index": r.randrange(len(PACKAGES)), "resp": r.choice(pool), "meta": r.choice(pool),
              "annotated": r.random() < 0.88, "order": r.choice(["types-first", "svc-first", "types-middle"]), "raw_sibling": r.random() < 0.25,
-             "types_name": r.choice(["types", "types", "operation", "operation_async"]), "ops_http": r.choice([False, False, True, "multi"])}
+             "types_name": r.choice(["types", "types"] + CLASH_NAMES), "ops_http": r.choice([False, False, True, "multi"])}
+        if r.random() < 0.3:
+            c["sub_name"] = r.choice(["operation", "operation_async", "operations"])
+        if r.random() < 0.2:
+            c["sub_imp_name"] = r.choice(["operation", "operation_async"])
         if r.random() < 0.3:
             c["flat"] = r.choice(["operation", "operation_async", "both"])
         if r.random() < 0.3:
@@ -1207,6 +1251,8 @@ def e2e_cells(ctx, n):
             c["selective"] = True
         if r.random() < 0.3 and not c.get("internal"):
             c["twin_meta"] = r.choice(["rel_same", "rel_imported", "fq_notimported", "empty", "fq_nested"])
+        if pb2_clash(c) and not registered(PB2_CLASH_SIG):
+            continue
         if c not in cells:
             cells.append(c)
     out = []
@@ -1261,7 +1307,7 @@ def run(ctx):
     t = threading.Thread(target=schema)
     t.start()
     try:
-        run_e2e(ctx, e2e_cells(ctx, ctx.n(23, 110)), tier_all=not ctx.quick())
+        run_e2e(ctx, e2e_cells(ctx, ctx.n(26, 120)), tier_all=not ctx.quick())
     finally:
         t.join()
     if errs:
